@@ -137,6 +137,8 @@ class Ctx:
         self.current_case = None
         self.lock = threading.RLock()
         self.exhaustive = None
+        self._known_keys = None
+        self.cases_at_first_new_violation = None
 
     # ---- seeds
     def rng(self, *salt):
@@ -179,6 +181,10 @@ class Ctx:
     def violation(self, key, what, witness=None):
         """key: mechanism key (function/clause/condition), never seed or values."""
         with self.lock:
+            if self._known_keys is None:
+                self._known_keys = {e["key"] for e in load_known() if e.get("status") == "known" and e.get("property") == self.pid}
+            if key not in self._known_keys and self.cases_at_first_new_violation is None:
+                self.cases_at_first_new_violation = self.cases_run
             n = self.viol_keys.get(key, 0)
             self.viol_keys[key] = n + 1
             if n < MAX_WITNESSES_PER_KEY:
